@@ -874,7 +874,8 @@ func c36CheckB(r *vrt.R, raw []byte, cnt *c36CountersB) {
 }
 
 func c36ErrWord(err error) string {
-	s := err.Error()
+	s := strings.TrimPrefix(err.Error(), "error when reading request headers: ")
+	s = strings.TrimPrefix(s, "fasthttp: ")
 	if i := strings.IndexAny(s, ":"); i > 0 {
 		s = s[:i]
 	}
